@@ -17,3 +17,7 @@ def run(ctx):
     ctx.assumptions.append("server time = the virtual clock; one sweep per elapsed second (what updateCurrentTime/checkTimeOut do); millisecond waits are not modelled")
     ctx.cov["rule"] = ("seeded sequences with waits of 1..65535 s / minutes, bursts of up to 17 ticks, grants and cancels interleaved; monitor: TIMEOUT replies in [T, T+2] s of "
                        "virtual time, no queued request 2 s past its deadline; distinct_nontrivial = distinct sequences containing at least one grant")
+
+
+def replay(path):
+    return engine_common.replay_engine("C05", path)
